@@ -17,7 +17,7 @@ SOURCES = ["dwarf/cfi_eval.py", "dwarf/cfi.py", "abi.py"]
 RULE = (
     "seeded directive sequences: 1-3 well-formed procedures (CFA rules, register rules, remember/restore, "
     "restore-to-initial, escaped expression instructions, personality/LSDA/return column) plus a malformed "
-    "stream obtained by one mutation (dropped/duplicated startproc or endproc, unbalanced restore_state, offset "
+    "stream obtained by one mutation (dropped/duplicated startproc or endproc, a stray endproc outside every procedure, unbalanced restore_state, offset "
     "change under an expression CFA, missing symbol, wrong arity, unknown directive, truncated escape), "
     "distributed over 1-4 blocks and offsets, blocks handed over in shuffled order and the table's keys inserted in "
     "shuffled order (insertion order is not address order), per ABI; distinct by "
@@ -220,7 +220,7 @@ def _gen_procedure(rng, nsyms, bo, ptr):
 def _mutate(rng, ds, bo, ptr):
     """One ill-forming mutation; returns (new list, label)."""
     ds = list(ds)
-    k = rng.randrange(12)
+    k = rng.randrange(13)
     starts = [i for i, d in enumerate(ds) if d[0] == ".cfi_startproc"]
     ends = [i for i, d in enumerate(ds) if d[0] == ".cfi_endproc"]
     pos = rng.randrange(len(ds) + 1)
@@ -262,6 +262,11 @@ def _mutate(rng, ds, bo, ptr):
     if k == 10:
         ds.insert(pos, (".cfi_rel_offset", [rng.randrange(34), 8], "null"))
         return ds, "rel_offset-without-offset-rule"
+    if k == 12:
+        # a second .cfi_endproc: right behind an existing one (outside every procedure), at the very end, or anywhere
+        where = rng.choice([pos, len(ds)] + [i + 1 for i in ends])
+        ds.insert(where, (".cfi_endproc", [], "null"))
+        return ds, "extra-endproc"
     ds.insert(pos, (".cfi_escape", [300], "null"))
     return ds, "escape-not-a-byte"
 
